@@ -38,7 +38,7 @@ func init() {
 		},
 		Run:            c01Run,
 		Replay:         c01Replay,
-		QuickBudget:    55 * time.Second,
+		QuickBudget:    240 * time.Second,
 		ThoroughBudget: 570 * time.Second,
 	})
 }
